@@ -55,7 +55,8 @@ func (s jsonSet) hashCode(metadata []Metadata) [8]byte {
 		hc := v.hashCode(metadata)
 		sMap[hc] = true
 	}
-	hashes := make(hashCodes, 0, len(sMap))
+	hashes := make(hashCodes, 0, len(sMap)+1)
+	hashes = append(hashes, [8]byte{0x1F, 0xC4, 0x5E, 0x0B, 0x92, 0x7A, 0xD3, 0x68}) // random bytes
 	for hc := range sMap {
 		hashes = append(hashes, hc)
 	}
